@@ -10,6 +10,8 @@ Correspondence (real CLI in-process through click's CliRunner, model = coq/Model
   D. `parse_field_param` incl. malformed arguments; E. dump -t bins/chroms and zoomify -r spellings (oracle only);
   F. history pass: the same paths / URIs / BINS strings reused in one process while the files behind them are rewritten
      (module-level caches, stale objects), every output judged for the data stored NOW;
+  H. zoomify -r spellings on bases whose ceil(L/256) sits on / next to a progression step (levels vs Model/Zoom.v expand_spec
+     and vs a python reading of the documented rule);
   G. names pass: chromosome names that look like numbers / floats / NA tokens / booleans through every text round trip
      (known finding D37: a name equal to a pandas NA token is refused by load / cload pairs, exit 1).
 Property oracle (never calls the code under test for its expected value): a plain-python reading of the
@@ -50,7 +52,9 @@ RULE = ("dump: per cooler (12 quick / 30 thorough small coolers: symmetric+squar
         "load -f bg2 and cload pairs with one BINS string (bed and chromsizes:binsize) whose file is rewritten in between, two orders; "
         "names pass: 14 chromosome-name alphabets (all digits, leading zeros, 1/01/001, digit+letter, float-like, scientific, pandas NA tokens, bool-like, "
         "inf/hex/sign, dots-dashes-underscores, 180-character names, all mixed), each as the only kind in its files: dump / dump --join / -t bins / -t chroms, "
-        "dump|load coo and bg2, hand-written bg2 and pairs files, BINS as BED file and as chromsizes:binsize, stored bin and chromosome tables compared as strings in order; non-trivial = at least one data row and at least one non-default option / a non-identity column layout; distinct by input hash")
+        "dump|load coo and bg2, hand-written bg2 and pairs files, BINS as BED file and as chromsizes:binsize, stored bin and chromosome tables compared as strings in order; "
+        "zoomify -r: 11 spellings (default, B, n, kB, kN, 2kB, 2kn, explicit and mixed lists, spaces, case) on 9 tiny bases (binsize 1, 2, 5) and 7 spellings incl. 4DN on 2 "
+        "binsize-1000 bases, genome lengths chosen so that ceil(L/256) is exactly a step of the binary / nice progression, one below, one above, or L a multiple of 256; non-trivial = at least one data row and at least one non-default option / a non-identity column layout; distinct by input hash")
 TRUSTED = ["pandas to_csv / read_csv tokenisation are observed through the CLI, not modelled (the model works on tokenised records and on cells)",
            "click option parsing is observed, not modelled"]
 ASSUMPTIONS = ["region -> bin range (region_to_extent) is given to the model as the pair of bin ranges computed by an independent overlap rule (owned by C04)",
@@ -1880,6 +1884,117 @@ def run_names(ctx, runner, cli, thorough):
     ctx.extra["name_alphabets"] = [t for t, _ in NAME_ALPHABETS]
 
 
+# ============================================================ H. zoomify -r spellings at the tile-size boundary
+def zoom_spec_items(spec):
+    """token classes of a resolution spec for Model/Zoom.v's expand_spec (same tokenisation as the CLI: split ',', strip, lower)"""
+    items = []
+    for tok in spec.split(","):
+        t = tok.strip().lower()
+        if t == "4dn":
+            items.append("Spec4DN")
+        elif t == "n":
+            items.append("SpecN")
+        elif t == "b":
+            items.append("SpecB")
+        elif t.endswith("n"):
+            items.append(f"(SpecIntN {C.z(int(t[:-1]))})")
+        elif t.endswith("b"):
+            items.append(f"(SpecIntB {C.z(int(t[:-1]))})")
+        else:
+            items.append(f"(SpecInt {C.z(int(t))})")
+    return C.lst(items)
+
+
+def zoom_levels_oracle(binsize, L, spec):
+    """the documented rule: progressions (x2 / 1-2-5) start at the given resolution and keep the values <= ceil(L / 256);
+    explicit integers are taken as they are; the base resolution is always present"""
+    maxres = -(-L // 256)
+
+    def prog(start, nice):
+        out, x, k = [], start, 0
+        while x <= maxres:
+            out.append(x)
+            x = x * ([2, 5, 2][k % 3]) // ([1, 2, 1][k % 3]) if nice else x * 2
+            k += 1
+        return out
+    res = {binsize}
+    for tok in (spec if spec is not None else "b").split(","):
+        t = tok.strip().lower()
+        if t == "4dn":
+            res |= {1000, 2000} | set(prog(5000, True))
+        elif t in ("n", "b"):
+            res |= set(prog(binsize, t == "n"))
+        elif t[-1] in "nb":
+            res |= set(prog(int(t[:-1]), t[-1] == "n"))
+        else:
+            res.add(int(t))
+    return sorted(res)
+
+
+def zoom_run(runner, cli, zdir, case, tag="z"):
+    """(exit status, sorted levels found in the output file or None)"""
+    import cooler
+    b, sizes = case["binsize"], case["sizes"]
+    names = ["a", "b", "c"][: len(sizes)]
+    bins = cooler.binnify(pd.Series(sizes, index=names), b)
+    n = len(bins)
+    px = sorted({(0, 0), (0, n - 1), (n // 2, n // 2), (n // 3, n - 2), (n - 1, n - 1)})
+    base, out = str(zdir / f"{tag}.cool"), str(zdir / f"{tag}.mcool")
+    for pth in (base, out):
+        if os.path.exists(pth):
+            os.remove(pth)
+    cooler.create_cooler(base, bins, pd.DataFrame({"bin1_id": [p[0] for p in px], "bin2_id": [p[1] for p in px], "count": [k + 1 for k in range(len(px))]}))
+    args = ["zoomify"] + (["-r", case["spec"]] if case["spec"] is not None else []) + ["-o", out, base]
+    code, _ = invoke(runner, cli, args, limit=60)
+    try:
+        lv = sorted(int(p.split("/")[-1]) for p in cooler.fileops.list_coolers(out))
+    except Exception:
+        lv = None
+    for pth in (base, out):
+        if os.path.exists(pth):
+            os.remove(pth)
+    return code, lv
+
+
+def zoom_cases(thorough):
+    """bases whose genome length L puts ceil(L / 256) exactly on a step of the binary / nice progression, one below, one above,
+    and on a multiple of 256 (floor = ceil); every spelling of the spec on each"""
+    small = [(1, 400), (1, 1100), (1, 1024), (2, 1000), (2, 768), (2, 1030), (2, 2500), (5, 2400), (5, 1000)]
+    if thorough:
+        small += [(1, 1000), (1, 1300), (1, 1900), (2, 2304), (2, 2600), (2, 2000), (5, 6200), (5, 6400)]
+    big = [2_559_900, 2_560_000] + ([2_561_000, 2_559_000] if thorough else [])
+    cases = []
+    for b, L in small:
+        sizes = [L // 2 + 3, L - (L // 2 + 3)]
+        specs = [None, "B", "n", f"{b}b", f"{b}N", f"{2 * b}B", f" {2 * b}n ", f"{2 * b},{4 * b}", f" {2 * b} , {b}B", f"{b}n,{4 * b}", f"{4 * b}N,{2 * b}b"]
+        for sp in specs:
+            cases.append({"kind": "zoomify-levels", "binsize": b, "sizes": sizes, "spec": sp})
+    for L in big:
+        sizes = [L - 1_000_000, 1_000_000]
+        for sp in ["4DN", " 4dn", "N", "1000n", "1000,2000,5000N", "2000B,4Dn", "5000N"]:
+            cases.append({"kind": "zoomify-levels", "binsize": 1000, "sizes": sizes, "spec": sp})
+    return cases
+
+
+def run_zoom_specs(ctx, runner, cli, thorough):
+    zdir = ctx.tmp / "zoomspec"
+    zdir.mkdir(exist_ok=True)
+    cases = zoom_cases(thorough)
+    exprs = [f"expand_spec {C.z(c['binsize'])} (maxres_fixed {C.z(sum(c['sizes']))}) {zoom_spec_items(c['spec'] if c['spec'] is not None else 'b')}" for c in cases]
+    model = C.coq_eval("From Cooler Require Import Model.Zoom.", exprs, tmpdir=ctx.tmp / "zoomspecv", shard=200, jobs=2)
+    for case, mo in zip(cases, model):
+        L = sum(case["sizes"])
+        ctx.case(case, nontrivial=True, kind="zoomify -r boundary")
+        code, lv = zoom_run(runner, cli, zdir, case)
+        mlv = sorted(set(mo) | {case["binsize"]})
+        ctx.compare("cooler zoomify -r levels", case, lv if code == 0 else str(code), mlv)
+        exp = zoom_levels_oracle(case["binsize"], L, case["spec"])
+        if code != 0 or lv != exp:
+            ctx.fail(case, {"why": "levels written by zoomify differ from the documented expansion of the spec", "maxres": -(-L // 256),
+                            "expected": exp, "got": lv, "exit": str(code)}, None)
+    ctx.extra["zoomify_boundary_cases"] = len(cases)
+
+
 # ============================================================ run / replay
 def run(ctx):
     from click.testing import CliRunner
@@ -1900,7 +2015,8 @@ def run(ctx):
         run_fieldparam(ctx); tm["fieldparam"] = round(time.time() - t0, 1); t0 = time.time()
         run_light(ctx, runner, cli, cools, uris, thorough); tm["light"] = round(time.time() - t0, 1); t0 = time.time()
         run_history(ctx, runner, cli); tm["history"] = round(time.time() - t0, 1); t0 = time.time()
-        run_names(ctx, runner, cli, thorough); tm["names"] = round(time.time() - t0, 1)
+        run_names(ctx, runner, cli, thorough); tm["names"] = round(time.time() - t0, 1); t0 = time.time()
+        run_zoom_specs(ctx, runner, cli, thorough); tm["zoom_specs"] = round(time.time() - t0, 1)
         ctx.extra["section_wall_s"] = tm
     finally:
         os.chdir(cwd)
@@ -1947,6 +2063,9 @@ def replay(ctx, case):
             cool = Cool.from_spec(case["cool"])
             code, ires = impl_cload(runner, cli, cool, case, ctx.tmp, 0)
             return oracle_cload(cool, case, code, ires, ctx.tmp, 0) is None
+        if kind == "zoomify-levels":
+            code, lv = zoom_run(runner, cli, ctx.tmp, case, tag="replay")
+            return code == 0 and lv == zoom_levels_oracle(case["binsize"], sum(case["sizes"]), case["spec"])
         if kind == "history":        # state between calls: only the whole history reproduces it
             sub = type(ctx)(ctx.prop, ctx.tier, ctx.seed)
             try:
